@@ -93,7 +93,12 @@ fn linearize_tree(tree: &SourceTree) -> Result<Vec<SourceFile<'_>>> {
     } else if let Some(root) = tree.sources.get_key_value(&PathBuf::from("")) {
         // if there is an empty path, that's the root
         root_path = root.0;
-    } else if let Some(root) = tree.sources.keys().find(path_starts_with_uppercase) {
+    } else if let Some(root) = tree
+        .sources
+        .keys()
+        .sorted()
+        .find(path_starts_with_uppercase)
+    {
         root_path = root;
     } else {
         if tree.sources.is_empty() {
